@@ -865,7 +865,7 @@ class Check(BaseCheck):
                     return 'continuation-inside-annotation'
                 return 'unexplained'
 
-            def text_repair_cause():
+            def text_repair_cause(wellformed_is_enough=False):
                 """a named rewrite of the core text after which the standard evaluator gives what the
                 FPy program gives -- or, where the program has a statement after a `with` block, what
                 the program with its continuations moved into the blocks gives (two causes at once)"""
@@ -892,6 +892,13 @@ class Check(BaseCheck):
                         r2 = self.refeval(t2, args)
                         if r2[0] == 'ok' and same(r2[1], want):
                             return name + csuf, shape + ssuf
+                if wellformed_is_enough:
+                    # the failure is that the core breaks a rule of the standard; a rewrite after which
+                    # it no longer does (even if what it then computes is undefined, e.g. an infinity
+                    # under `integer`) names the rule it broke
+                    for name, shape, t2 in cands:
+                        if self.refeval(t2, args)[0] == 'undefined':
+                            return name, shape
                 return 'unexplained', kinds
 
             # ---- meaning of the core --------------------------------------
@@ -966,7 +973,7 @@ class Check(BaseCheck):
                 # a scalar, index out of range) although the FPy program returns: this is not titanfp
                 # declining a construct
                 compile_ok = False
-                cause, shape = text_repair_cause()
+                cause, shape = text_repair_cause(wellformed_is_enough=True)
                 violate({'direction': 'compile', 'kind': 'core does not evaluate', 'shape': shape, 'cause': cause},
                         args,
                         f'\nargs {show_args(args)}\ncore: {text}\nFPy interpreter : {show(vf)}\n'
